@@ -59,6 +59,25 @@ def run(tier, replay=None):
     res.coverage.update({"evaluations": len(cases), "distinct_nontrivial": distinct_nontrivial(cases),
         "rule": "all labelled simple graphs on <=4 (quick) / <=5 (thorough) vertices + structured random graphs (G(n,p), K_n, K_ab, grids, hypercubes, wheels, thetas, cacti, Petersen, unions, trees, forests, empty; isolated vertices, pendant trees; shuffled labels/insertion order); non-trivial = at least 2 edges; distinct by (n, edge list)",
         "traces_validated_against_impl": len(oks), "samples": [{"n": c[0], "edges": c[1]} for c in list(cases.values())[-2:]], **stats(cases)})
+    # sizes beyond the 8- and 16-bit boundaries (oracle only: the list-based model is quadratic): many components,
+    # isolated edges, more than 65536 vertices / edges / components
+    if not bad and not replay:
+        big = {}
+        n1 = 70000; E1 = [(i, i + 1, 1) for i in range(n1 - 1) if i % 7 != 3] + [(i, i + 5, 1) for i in range(0, n1 - 5, 950)]
+        big["path-pieces-70000"] = (n1, E1, 0, "big")
+        n2 = 600; E2 = [(a, b, 1) for a in range(n2) for b in range(a + 1, min(n2, a + 4))]                   # m = 1794, dim > 1024
+        big["band-600"] = (n2, E2, 0, "big")
+        n3 = 140000; E3 = [(2 * i, 2 * i + 1, 1) for i in range(n3 // 2) if i % 3] + [(0, 2, 1), (1, 3, 1), (0, 3, 1)]     # > 46000 isolated-edge components
+        big["matching-140000"] = (n3, E3, 0, "big")
+        rcb, outb, errb = run_graph_kind(binary, "forest", big)
+        bb = parse_blocks(outb)
+        for cid, c in big.items():
+            why = "harness crashed" if rcb != 0 else oracle(c, bb.get(cid, {"lines": []}))
+            if why:
+                res.violation("ForestIndex on %s (n = %d, m = %d): %s" % (cid, c[0], len(c[1]), why),
+                              {"kind": "generated", "family": cid, "n": c[0], "m": len(c[1]), "why": why, "edges_rule": "see checks/c16.py (big graphs)"})
+                return res.finish()
+        res.coverage["large_graphs"] = {k: [c[0], len(c[1])] for k, c in big.items()}
     if bad:
         cid, why = bad[0]
         def still_bad(c):
